@@ -152,6 +152,7 @@ def other_tomographies(chk, tier):
     cfgs = []
     for para in (False, True):
         cfgs.append(("povmt:m2", StandardPovmt(sts, 2, on_para_eq_constraint=para), [qobjs.gen("povm", "x", c), qobjs.gen("povm", "z", c)], para))
+        cfgs.append(("povmt:m3", StandardPovmt(sts, 3, on_para_eq_constraint=para), [qobjs.povm3_qubit()], para))      # outcomes != dimension
         cfgs.append(("qpt", StandardQpt(sts, pvs, on_para_eq_constraint=para), [qobjs.gen("gate", "hadamard", c), qobjs.gen("gate", "x90", c)], para))
         if tier == "thorough" or para:
             cfgs.append(("qmpt:m2", StandardQmpt(sts, pvs, 2, on_para_eq_constraint=para), [qobjs.gen("mprocess", "z-type1", c)], para))
